@@ -535,7 +535,7 @@ def c12_flag_outputs(run):
 PROPS["C12"] = {
     "level": "other",
     "prepare": prepare_expand,
-    "govc": [{"dir": "{gen}/lexonly_dbg", "pkgs": ["./lexer"], "contracts": [STDLIB, LEXGEN_CONTRACTS, "{verif}/contracts/debug_pure.go"], "prop": "C01"},
+    "govc": [{"dir": "{gen}/lexonly_dbg", "pkgs": ["./lexer"], "contracts": [STDLIB, TOKGEN_CONTRACTS, LEXGEN_CONTRACTS, "{verif}/contracts/debug_pure.go"], "prop": "C01"},
              {"dir": "{gen}/recover_dbg", "pkgs": ["./parser", "./token"], "contracts": [STDLIB, TOKGEN_CONTRACTS, PARGEN_CONTRACTS, "{verif}/contracts/debug_pure.go"], "prop": "C02"},
              {"dir": "{gen}/recover_zip", "pkgs": ["./parser", "./token"], "contracts": [STDLIB, TOKGEN_CONTRACTS, PARGEN_CONTRACTS], "prop": "C02"}],
     "extra": [c12_erasure, c12_zip_tables, c12_flag_outputs],
